@@ -225,11 +225,18 @@ bool Scheduler::join(const RoutineToken &other_routine)
 
         routine->join_token = d_->curr_routine->token;
 
-        d_->curr_routine->state = Routine::State::kSuspend;
-        swapcontext(&(d_->curr_routine->ctx), &d_->main_ctx);
+        //! 有可能被 resume() 提前唤醒，所以要循环检查目标协程是否真的结束了
+        //! 协程结束后会被从 routine_cabinet 中移除，at() 将返回 nullptr
+        do {
+            d_->curr_routine->state = Routine::State::kSuspend;
+            swapcontext(&(d_->curr_routine->ctx), &d_->main_ctx);
 
-        //! 如果不是被cancel唤醒的，那返回成功；否则返回失败
-        return !d_->curr_routine->is_canceled;
+            //! 如果是被cancel唤醒的，返回失败
+            if (d_->curr_routine->is_canceled)
+                return false;
+        } while (d_->routine_cabinet.at(other_routine) != nullptr);
+
+        return true;
     }
     return false;
 }
